@@ -14,3 +14,4 @@ def c13_semistrat_zero_part(fam, case, verdict):
         return what.startswith("gradient sample of GCPSampler: semistrat-zero-part:") and \
             (case is None or case.get("gkind") == "semistrat")
     return False
+
